@@ -428,8 +428,9 @@ func reportViolation(o checkOpts, dir string, ob *Obligation, note string, l *Lo
 	suffix := " no-failing-input-found"
 	if ob.Model != "" {
 		fmt.Fprintf(&b, "model (inputs):\n")
-		for i, in := range ob.run.inputs {
-			fmt.Fprintf(&b, "  %s = %s\n", in.name, modelValue(ob.Model, i, len(ob.run.inputs)))
+		mi := ob.run.modelInputs()
+		for i, in := range mi {
+			fmt.Fprintf(&b, "  %s = %s\n", in.name, modelValue(ob.Model, i, len(mi)))
 		}
 		if l != nil {
 			if rp, ok := tryReplay(o, dir, base, ob); ok {
